@@ -7,6 +7,13 @@ use crate::grammar::*;
 use std::collections::{BTreeSet, HashSet};
 
 pub(super) fn detect_cycles(ast: &Ast, diagnostics: &mut Diagnostics) {
+    // Interfaces that inherit from themselves: `all_base_interfaces` would never return on them.
+    for node in ast.as_slice() {
+        if let Node::Interface(interface_ptr) = node {
+            check_interface_for_inheritance_cycles(interface_ptr.borrow(), diagnostics);
+        }
+    }
+
     let mut cycle_detector = CycleDetector {
         type_being_checked: None,
         dependency_stack: Vec::new(),
@@ -26,6 +33,37 @@ pub(super) fn detect_cycles(ast: &Ast, diagnostics: &mut Diagnostics) {
         debug_assert!(cycle_detector.dependency_stack.is_empty());
         cycle_detector.type_being_checked = Some((candidate.module_scoped_identifier(), candidate));
         candidate.check_for_cycles(&mut cycle_detector)
+    }
+}
+
+/// Reports an error if the provided interface inherits from itself, directly or through other interfaces.
+fn check_interface_for_inheritance_cycles(interface: &Interface, diagnostics: &mut Diagnostics) {
+    // Depth-first search over the bases; every interface is entered at most once, so this terminates on any graph.
+    fn find_path(current: &Interface, target: &str, path: &mut Vec<String>, seen: &mut HashSet<String>) -> bool {
+        for base in current.base_interfaces() {
+            let id = base.module_scoped_identifier();
+            if id == target {
+                path.push(id);
+                return true;
+            }
+            if seen.insert(id.clone()) {
+                path.push(id);
+                if find_path(base, target, path, seen) {
+                    return true;
+                }
+                path.pop();
+            }
+        }
+        false
+    }
+
+    let type_id = interface.module_scoped_identifier();
+    let mut path = vec![type_id.clone()];
+    if find_path(interface, &type_id, &mut path, &mut HashSet::new()) {
+        let cycle = path.join(" -> ");
+        Diagnostic::new(Error::InfiniteSizeCycle { type_id, cycle })
+            .set_span(interface.span())
+            .push_into(diagnostics);
     }
 }
 
